@@ -39,7 +39,7 @@ pub const INFO: Info = Info {
            q <= 0.01), target and its decoy hit with the same score, extreme scores (f32::MIN, +-inf, subnormal), \
            non-canonical tables (duplicate peptide string: the index lookup panics on both sides). Precursor level: \
            0-80 peaks (big: up to 800), Combined/Charged ids, f64 scores that collapse to f32 ties, directed \
-           (d+1)/t = 0.05 with t in 19..61. Directed tie blocks at all three levels (several targets and decoys of different keys at one score). \
+           (d+1)/t = 0.05 with t in 19..61. NaN-PEP inputs (single decoy / single target / all scores equal: every q must be 1.0). Directed tie blocks at all three levels (several targets and decoys of different keys at one score). \
            Every pick* case, ties included, is followed by perm* cases (reversed and random supply order, \
            implementation against itself). non-trivial = at least 2 \
            entities with at least one target and one decoy; distinct by request",
@@ -611,7 +611,7 @@ enum Mode {
     OnlyDecoys,
 }
 
-fn gen_feats(rng: &mut Rng, db: &DbSpec, n: usize, mode: Mode) -> Vec<(usize, f32)> {
+fn gen_feats_raw(rng: &mut Rng, db: &DbSpec, n: usize, mode: Mode) -> Vec<(usize, f32)> {
     let np = db.peps.len();
     if np == 0 {
         return vec![];
@@ -647,6 +647,33 @@ fn gen_feats(rng: &mut Rng, db: &DbSpec, n: usize, mode: Mode) -> Vec<(usize, f3
             (i, s)
         })
         .collect()
+}
+
+/// PSM list; in the mixed modes both classes are made to win at least three keys each with different
+/// scores where the table allows it (a class with fewer than two distinct winning scores has zero variance
+/// and the estimator returns NaN for every score: that situation has its own stream, `nan-pep`)
+fn gen_feats(rng: &mut Rng, db: &DbSpec, n: usize, mode: Mode) -> Vec<(usize, f32)> {
+    let mut feats = gen_feats_raw(rng, db, n, mode);
+    if !matches!(mode, Mode::Distinct | Mode::Grid | Mode::Separated) || n < 4 {
+        return feats;
+    }
+    let extra = distinct_scores(rng, 6, 9.5, 11.5);
+    let mut k = 0;
+    for want_decoy in [false, true] {
+        let cands: Vec<usize> = (0..db.peps.len()).filter(|&i| db.peps[i].decoy == want_decoy).collect();
+        for _ in 0..3 {
+            if cands.is_empty() {
+                break;
+            }
+            let i = *rng.pick(&cands);
+            // high scores so that the entity wins its key
+            let s = if mode == Mode::Separated && want_decoy { extra[k] - 12.0 } else { extra[k] };
+            feats.push((i, s));
+            k += 1;
+        }
+    }
+    rng.shuffle(&mut feats);
+    feats
 }
 
 fn rows_stat(db: &DbSpec, feats: &[(usize, f32)]) -> (usize, bool, bool) {
@@ -799,7 +826,11 @@ fn gen_peaks(rng: &mut Rng, n: usize, mode: Mode) -> Vec<PeakSpec> {
 
 pub fn gen(rng: &mut Rng, tier: Tier, emit: &mut dyn FnMut(Case)) {
     let quick = tier == Tier::Quick;
-    let modes = [Mode::Distinct, Mode::Grid, Mode::AllEqual, Mode::Separated, Mode::OnlyTargets, Mode::OnlyDecoys];
+    // single-class / all-equal inputs make every PEP NaN (q = 1 everywhere): keep them, but as a minority
+    let modes = [
+        Mode::Distinct, Mode::Distinct, Mode::Distinct, Mode::Distinct, Mode::Grid, Mode::Grid, Mode::Separated,
+        Mode::Separated, Mode::Separated, Mode::AllEqual, Mode::OnlyTargets, Mode::OnlyDecoys,
+    ];
 
     // edge cases: empty database rows are impossible (a PSM needs a peptide); no PSMs, one PSM, one pair
     {
@@ -980,6 +1011,26 @@ pub fn gen(rng: &mut Rng, tier: Tier, emit: &mut dyn FnMut(Case)) {
             v.push(PeakSpec { charged, ix, charge, decoy, score });
         }
         emit_prec(rng, emit, &v, &["tie-block"], if quick { 3 } else { 5 });
+    }
+
+    // (j) NaN posterior errors (C14's known finding: a class with zero score variance gives bandwidth 0):
+    //     a single decoy among targets, a single target among decoys, one class only, all scores equal.
+    //     Theorem nan_all: every q = 1.0, passing = 0.
+    for k in 0..(if quick { 12 } else { 200 }) {
+        let nt = 3 + rng.below(6);
+        let db = synth_db(rng, nt, 3, false);
+        let tg: Vec<usize> = (0..db.peps.len()).filter(|&i| !db.peps[i].decoy).collect();
+        let dc: Vec<usize> = (0..db.peps.len()).filter(|&i| db.peps[i].decoy).collect();
+        if dc.is_empty() {
+            continue;
+        }
+        let ds = distinct_scores(rng, tg.len() + dc.len(), -2.0, 8.0);
+        let feats: Vec<(usize, f32)> = match k % 3 {
+            0 => tg.iter().enumerate().map(|(j, &i)| (i, ds[j])).chain(std::iter::once((dc[0], 0.5))).collect(),
+            1 => dc.iter().enumerate().map(|(j, &i)| (i, ds[j])).chain(std::iter::once((tg[0], 0.5))).collect(),
+            _ => tg.iter().chain(dc.iter()).map(|&i| (i, 2.0)).collect(),
+        };
+        emit_pick(rng, emit, &db, &feats, &["nan-pep"], 1);
     }
 
     // precursor level
